@@ -14,10 +14,11 @@ DEFAULT_NA = "not claimed: no TLA+-based check has been built for it yet in this
 def main():
     props = [json.loads(l) for l in open(os.path.join(HERE, "properties.jsonl"))]
     checks, na = [], []
+    ready = set(open(os.path.join(HERE, "checks", "ready.txt")).read().split())
     for p in props:
         pid = p["id"]
         f = os.path.join(HERE, "checks", pid + ".py")
-        if not os.path.exists(f):
+        if not os.path.exists(f) or pid not in ready:
             na.append({"property_id": pid, "reason": NA_REASONS.get(pid, DEFAULT_NA)})
             continue
         spec = importlib.util.spec_from_file_location("c_" + pid, f)
